@@ -41,6 +41,52 @@ Proof.
 Qed.
 
 
+(* ---- which FDE answers is decided by the address: it is one of the module's *)
+Lemma sort_in {A} (key : A -> N) (l : list A) : forall acc z,
+  In z (fold_left (fun acc x => insert_sorted key x acc) l acc) -> In z acc \/ In z l.
+Proof.
+  induction l as [|x t IH]; intros acc z H; cbn [fold_left] in H; [left; exact H|].
+  apply IH in H. destruct H as [H|H]; [|right; right; exact H].
+  assert (E : forall l0, In z (insert_sorted key x l0) -> z = x \/ In z l0).
+  { induction l0 as [|y t0 IH0]; cbn [insert_sorted]; [cbn; intuition|].
+    destruct (key x <? key y); cbn [In]; [intuition|]. intros [->|Hz]; [right; left; reflexivity|].
+    destruct (IH0 Hz); [left | right; right]; assumption. }
+  destruct (E acc H) as [->|Hz]; [right; left; reflexivity | left; exact Hz].
+Qed.
+Lemma sort_by_key_in {A} (key : A -> N) (l : list A) z : In z (sort_by_key key l) -> In z l.
+Proof. unfold sort_by_key. intros H. apply sort_in in H. destruct H as [[]|H]; exact H. Qed.
+Lemma last_le_by_in {A} (key : A -> N) (l : list A) a : forall cur r,
+  last_le_by key l a cur = Some r -> In r l \/ cur = Some r.
+Proof.
+  induction l as [|f t IH]; intros cur r H; cbn [last_le_by] in H; [right; exact H|].
+  destruct (key f <=? a); [|right; exact H].
+  apply IH in H. destruct H as [H|H]; [left; right; exact H | left; left; inversion H; reflexivity].
+Qed.
+Lemma hdr_lookup_in sec svma f : hdr_lookup sec svma = Some f -> In f sec.
+Proof.
+  unfold hdr_lookup. destruct (sort_by_key f_start sec) as [|f0 t] eqn:E; [discriminate|]. intros H.
+  apply last_le_by_in in H. apply (sort_by_key_in f_start sec). rewrite E.
+  destruct H as [H|H]; [exact H | inversion H; left; reflexivity].
+Qed.
+Lemma index_entries_in sec base : forall l rel f, index_entries sec base = Some l -> In (rel, f) l -> In f sec.
+Proof.
+  induction sec as [|g t IH]; intros l rel f H Hin; cbn [index_entries] in H; [inversion H; subst; contradiction|].
+  destruct (sub64c (f_start g) base) as [r0|]; [|discriminate]. destruct (r0 <? W32); [|discriminate].
+  destruct (index_entries t base) as [l0|] eqn:E; [|discriminate]. inversion H; subst.
+  destruct Hin as [Hin|Hin]; [inversion Hin; left; reflexivity | right; eapply IH; [reflexivity | exact Hin]].
+Qed.
+Lemma index_lookup_in sec base idx b rel f : index_build sec base = Some idx -> index_lookup b idx rel = Some f -> In f sec.
+Proof.
+  unfold index_build. destruct (index_entries sec base) as [l|] eqn:E; [|discriminate]. intros H; inversion H; subst; clear H.
+  unfold index_lookup. destruct (sort_by_key fst l) as [|e0 t] eqn:Es; [discriminate|].
+  assert (Hall : forall e, In e (e0 :: t) -> In (snd e) sec).
+  { intros [r g] He. rewrite <- Es in He. apply sort_by_key_in in He. eapply index_entries_in; [exact E | exact He]. }
+  destruct (rel <? fst e0).
+  - destruct b; [|discriminate]. intros H; inversion H; subst. apply Hall. left; reflexivity.
+  - destruct (last_le_by fst (e0 :: t) rel None) as [e|] eqn:El; [|discriminate]. cbn [option_map]. intros H; inversion H; subst.
+    apply last_le_by_in in El. destruct El as [El|El]; [apply Hall; exact El | discriminate].
+Qed.
+
 Section Frame.
 Variables lo hi s : N.
 Hypothesis Hlo : 2 * DIST <= lo.
@@ -116,6 +162,37 @@ Lemma cb_rel_none (md : xmodule) first rel rg rg' m :
   mdat md = MNone -> rrel rg rg' -> vok rg -> spok rg ->
   cb_rel (cb_x86 md first rel rg m) (cb_x86 md first rel rg' (shm m)).
 Proof. intros Hd Hr Hv Hs. unfold cb_x86. rewrite Hd. split; [reflexivity|]. cbn. auto. Qed.
+
+(* ---- DWARF modules all of whose rows compress (what compilers emit outside hand-written assembly) *)
+Definition rows_compress (sec : list fde) : Prop :=
+  forall f svma rw, In f sec -> row_for_address f svma = Some rw -> translate_x86 rw <> None.
+
+Lemma cb_rel_dwarf (md : xmodule) p sec first rel rg rg' m :
+  mdat md = MDwarf p sec -> rows_compress sec -> rrel rg rg' -> vok rg -> spok rg ->
+  cb_rel (cb_x86 md first rel rg m) (cb_x86 md first rel rg' (shm m)).
+Proof.
+  intros Hd Hc Hr Hv Hs. unfold cb_x86. rewrite Hd. unfold cb_dwarf.
+  assert (W : forall f svma, In f sec ->
+            cb_rel (with_fde rule regs row_step_x86 uncovered_rule_x86 f svma first rg m, dw_eff)
+                   (with_fde rule regs row_step_x86 uncovered_rule_x86 f svma first rg' (shm m), dw_eff)).
+  { intros f svma Hin. destruct (with_fde_rel f svma first rg rg' m (shm m)) as (r & E1 & E2 & Ew).
+    - intros rw Hrw. exact (Hc f svma rw Hin Hrw).
+    - rewrite E1, E2. split; [reflexivity|]. cbn. split; [reflexivity | exact Ew]. }
+  assert (E : cb_rel (CbErr rg, dw_eff) (CbErr rg', dw_eff)) by (split; [reflexivity|]; cbn; auto).
+  destruct p.
+  - destruct (add64p S_dwarf_svma_add (base_svma md) rel) as [svma|e|pp|]; try exact E.
+    destruct (hdr_lookup sec svma) as [f|] eqn:Eh; [|exact E]. apply W. eapply hdr_lookup_in; exact Eh.
+  - destruct (index_build sec (base_svma md)) as [idx|] eqn:Ei; [|split; [reflexivity|]; cbn; auto].
+    destruct (index_lookup true idx rel) as [f|] eqn:El; [|exact E].
+    destruct (add64p S_dwarf_svma_add (base_svma md) rel) as [svma|e|pp|];
+      try (split; [reflexivity|]; cbn; split; reflexivity).
+    apply W. eapply index_lookup_in; eassumption.
+  - destruct (index_build sec (base_svma md)) as [idx|] eqn:Ei; [|split; [reflexivity|]; cbn; auto].
+    destruct (index_lookup true idx rel) as [f|] eqn:El; [|exact E].
+    destruct (add64p S_dwarf_svma_add (base_svma md) rel) as [svma|e|pp|];
+      try (split; [reflexivity|]; cbn; split; reflexivity).
+    apply W. eapply index_lookup_in; eassumption.
+Qed.
 
 (* ---- Mach-O: every entry that does not defer to DWARF *)
 Lemma cb_rel_macho (md : xmodule) d first rel rg rg' m :
